@@ -7,7 +7,7 @@ use super::sendbody::send_body_flow;
 use crate::engine::{guarded, pattern, Report, Tier, Violation};
 use crate::refmodel::chunked::decode_strict;
 
-pub const RULE: &str = "every output length n in 0..=3*10248+64 (thorough: 0..=10*10248+64) plus boundary set {k*10248+d, 16^j+d}: m = calculate_max_input(n) on the real SendBody flow, then the real write(input[..m], out[..n]); chunked and length-delimited bodies; for length-delimited bodies additionally Content-Length {0,1,100,20000} x already-accounted {0,1,half,all} x n up to 70000 (the advertised size is n whatever remains); the same check from non-initial states: after an earlier write of {0 (an end signal, only into buffers too small for the terminator),1,3,17} input bytes into a buffer of 0..=24 bytes in the same SendBody state, and for a chunked body selected by a mixed-case Transfer-Encoding: Chunked next to a Content-Length header, for a GET converted with send-body-despite-method without framing header, and for an HTTP/1.0 POST without Content-Length, n in 0..=300 u 4090..=4110 u 10240..=10270. distinct = distinct (mode, m>0, chunks emitted, hex digits of last chunk) classes";
+pub const RULE: &str = "every output length n in 0..=3*10248+64 (thorough: 0..=10*10248+64) plus boundary set {k*10248+d, 16^j+d}: m = calculate_max_input(n) on the real SendBody flow, then the real write(input[..m], out[..n]); chunked and length-delimited bodies; for length-delimited bodies additionally Content-Length {0,1,100,20000} x already-accounted {0,1,half,all} x n up to 70000 (the advertised size is n whatever remains); the same check from non-initial states: after an earlier write of {0 (an end signal, only into buffers too small for the terminator),1,3,17} input bytes into a buffer of 0..=24 bytes in the same SendBody state, and for a chunked body selected by a mixed-case Transfer-Encoding: Chunked next to a Content-Length header, for every body-less method converted with send-body-despite-method without framing header, for an HTTP/1.0 POST without Content-Length, and for a sized body on a flow obtained through a redirect whose original declared a smaller length, n in 0..=300 u 4090..=4110 u 10240..=10270. distinct = distinct (mode, m>0, chunks emitted, hex digits of last chunk) classes";
 
 const CHUNK: usize = 10 * 1024 + 8;
 
@@ -42,8 +42,11 @@ fn one_from(n: usize, chunked: bool, variant: &str, prior: Option<(usize, usize)
         let mut f = match variant {
             // body-less method converted with send_body_despite_method(), no framing header: default chunked
             "despite-default" => super::sendbody::send_body_flow_despite("GET"),
+            v if v.starts_with("despite-default:") => super::sendbody::send_body_flow_despite(&v["despite-default:".len()..]),
             // HTTP/1.0 POST without Content-Length: the library frames the body in chunks all the same
             "http10-default" => super::sendbody::send_body_flow_cfg(&crate::driver::ReqCfg::new("POST", "1.0", "http://a.test/p")),
+            // sized body on a flow obtained through a redirect (the original declared Content-Length 3)
+            "redirected-sized" => super::sendbody::send_body_flow_redirected_len(n as u64 + 5),
             "te-mixed-case+cl" => super::sendbody::send_body_flow_cfg(&crate::driver::ReqCfg::new("POST", "1.1", "http://a.test/p").orig("transfer-encoding", "Chunked").orig("content-length", "5")),
             _ => send_body_flow(if chunked { None } else { Some(n as u64 + 5 + prior.map(|p| p.0 as u64).unwrap_or(0)) }),
         };
@@ -213,6 +216,12 @@ pub fn run(tier: Tier) -> Report {
     for &n in &small_ns {
         extra_jobs.push((n, true, "te-mixed-case+cl", None));
         extra_jobs.push((n, true, "despite-default", None));
+        if n % 7 == 0 || n < 16 {
+            for v in ["despite-default:HEAD", "despite-default:DELETE", "despite-default:OPTIONS", "despite-default:CONNECT", "despite-default:TRACE"] {
+                extra_jobs.push((n, true, v, None));
+            }
+        }
+        extra_jobs.push((n, false, "redirected-sized", None));
         extra_jobs.push((n, true, "http10-default", None));
         for i0 in [0usize, 1, 3, 17] {
             for b0 in 0..=24usize {
